@@ -90,8 +90,9 @@ def stripBreak (seg : List Cell) : List Cell :=
   | none => seg
 
 /-- The `for { … }` loop of `SoftwrapScanner.Scan` (both packages).  `o st rest` is the segmentation
-call; `k` is clamped by `take`/`drop` exactly as Go slicing of the returned prefix. -/
-def scanLoop {σ : Type} (o : σ → List Cell → Nat × Bool × σ) (width : Nat) :
+call; `k` is clamped by `take`/`drop` exactly as Go slicing of the returned prefix.  `ini` is the state
+`-1` ("unknown") that text.go stores after a long-word split; richtext has no state. -/
+def scanLoop {σ : Type} (o : σ → List Cell → Nat × Bool × σ) (ini : σ) (width : Nat) :
     Nat → List Cell → σ → List Cell → Nat → Scan σ
   | 0, _, _, _, _ => .hang
   | fuel + 1, rest, st, token, w =>
@@ -105,7 +106,8 @@ def scanLoop {σ : Type} (o : σ → List Cell → Nat × Bool × σ) (width : N
     let spaceLen := sumW trSpace
     if wordLen > width then
       let sp := splitLong width (!token.isEmpty) w word
-      .line (sp.2 ++ trSpace ++ rest') st (token ++ sp.1)
+      -- `s.state = -1` (F116 fix): after a split `rest` no longer starts where `state` belongs
+      .line (sp.2 ++ trSpace ++ rest') ini (token ++ sp.1)
     else if w + wordLen > width then
       .line rest st token
     else if br then
@@ -116,14 +118,14 @@ def scanLoop {σ : Type} (o : σ → List Cell → Nat × Bool × σ) (width : N
       if w + spaceLen > width then
         .line rest' r.2.2 token
       else
-        scanLoop o width fuel rest' r.2.2 (token ++ trSpace) (w + spaceLen)
+        scanLoop o ini width fuel rest' r.2.2 (token ++ trSpace) (w + spaceLen)
 
 /-- `SoftwrapScanner.Scan`. The fuel `rest.length` suffices for every oracle returning non-empty
 prefixes (theorem `scan_terminates`); a smaller progress would be a hang of the Go loop. -/
-def scan {σ : Type} (o : σ → List Cell → Nat × Bool × σ) (width : Nat)
+def scan {σ : Type} (o : σ → List Cell → Nat × Bool × σ) (ini : σ) (width : Nat)
     (rest : List Cell) (st : σ) : Scan σ :=
   if rest.isEmpty || width == 0 then .stop
-  else scanLoop o width rest.length rest st [] 0
+  else scanLoop o ini width rest.length rest st [] 0
 
 /-- Outcome of `for scanner.Scan() { lines = append(lines, scanner.Text()) }`. -/
 inductive Lines where
@@ -131,22 +133,22 @@ inductive Lines where
   | ok (ls : List (List Cell))
   deriving Repr, DecidableEq
 
-def scanAll {σ : Type} (o : σ → List Cell → Nat × Bool × σ) (width : Nat) :
+def scanAll {σ : Type} (o : σ → List Cell → Nat × Bool × σ) (ini : σ) (width : Nat) :
     Nat → List Cell → σ → Lines
   | 0, _, _ => .hang
   | fuel + 1, rest, st =>
-    match scan o width rest st with
+    match scan o ini width rest st with
     | .stop => .ok []
     | .hang => .hang
     | .line rest' st' tok =>
-      match scanAll o width fuel rest' st' with
+      match scanAll o ini width fuel rest' st' with
       | .ok ls => .ok (tok :: ls)
       | .hang => .hang
 
 /-- All lines of a text (fuel: one more `Scan` than there are cells). -/
-def lines {σ : Type} (o : σ → List Cell → Nat × Bool × σ) (width : Nat)
+def lines {σ : Type} (o : σ → List Cell → Nat × Bool × σ) (ini : σ) (width : Nat)
     (cells : List Cell) (st0 : σ) : Lines :=
-  scanAll o width (cells.length + 1) cells st0
+  scanAll o ini width (cells.length + 1) cells st0
 
 /-! ### richtext.firstLineSegment -/
 
@@ -167,16 +169,16 @@ def richOracle (lb : Nat → Nat → Bool) : Unit → List Cell → Nat × Bool 
   fun _ rest => let r := firstLineSegment lb true rest; (r.1, r.2, ())
 
 def richScan (lb : Nat → Nat → Bool) (width : Nat) (rest : List Cell) : Scan Unit :=
-  scan (richOracle lb) width rest ()
+  scan (richOracle lb) () width rest ()
 
 def richLines (lb : Nat → Nat → Bool) (width : Nat) (cells : List Cell) : Lines :=
-  lines (richOracle lb) width cells ()
+  lines (richOracle lb) () width cells ()
 
 /-! ### text.SoftwrapScanner: `uniseg.FirstLineSegment(rest, state)` is the oracle itself. -/
 
 def plainLines {σ : Type} (seg : σ → List Cell → Nat × Bool × σ) (width : Nat)
     (cells : List Cell) (st0 : σ) : Lines :=
-  lines seg width cells st0
+  lines seg st0 width cells st0
 
 /-! ### richtext.HardwrapScanner -/
 
